@@ -32,7 +32,7 @@ ASSUMPTIONS = [
     'field names are plain (collisions with generated column names such as a_min_ok / n_failures are outside the property)',
     'rows in an output file are identified through the Index column or the full set of original fields when present; otherwise only their number and the multiset of n_failures are compared',
 ]
-REQUIRED_MONITORS = ['verdicts:compared', 'rows:flags_compared', 'rows:n_failures_compared', 'file:exists_iff_failed',
+REQUIRED_MONITORS = ['file:row_numbers_compared', 'verdicts:compared', 'rows:flags_compared', 'rows:n_failures_compared', 'file:exists_iff_failed',
                      'file:content_compared', 'input:unchanged_checked', 'partition:checked', 'history:stale_file',
                      'reach:write_detected_records']
 REQUIRED_CLASSES = ['index=custom', 'fmt=none', 'fmt=csv', 'fmt=parquet', 'per_constraint=1', 'write_all=1', 'in_place=1',
@@ -74,7 +74,9 @@ def gen_case(rng, i):
         of = [c['name'] for c in spec['cols'] if rng.random() < 0.6] or [spec['cols'][0]['name']]
     opts = {'per_constraint': rng.random() < 0.6, 'write_all': rng.random() < 0.35, 'output_fields': of,
             'index': rng.random() < 0.4, 'in_place': rng.random() < 0.25, 'interleave': rng.random() < 0.25,
-            'boolean_ints': rng.random() < 0.3}
+            'boolean_ints': rng.random() < 0.3,
+            # False = "the frame came from a file": a written row-number column refers to positions in the input (from 1)
+            'rownumber_is_index': not (fmt and rng.random() < 0.25)}
     n = spec['nrows']
     ik = rng.choice(['default', 'default', 'permuted', 'offset', 'reversed'])
     if ik == 'permuted':
@@ -120,7 +122,7 @@ def run_case(ctx, case):
     kw = {} if case['epsilon'] is None else {'epsilon': case['epsilon']}
     sem = {'epsilon': case['epsilon'], 'type_checking': None}
     cls = [('fmt=%s' % (case['fmt'] or 'none'),), ('stale=%s' % case['stale'],), ('index=%s' % ('custom' if spec.get('index') is not None else 'default'),)] + \
-          [('%s=%d' % (k, bool(o[k])),) for k in ('per_constraint', 'write_all', 'index', 'in_place', 'interleave', 'boolean_ints')] + \
+          [('%s=%d' % (k, bool(o.get(k, True))),) for k in ('per_constraint', 'write_all', 'index', 'in_place', 'interleave', 'boolean_ints', 'rownumber_is_index')] + \
           [('output_fields=%s' % ('none' if o['output_fields'] is None else 'all' if o['output_fields'] == [] else 'some'),)]
     outdir = os.path.join(ctx.scratch, 'c06out')
     os.makedirs(outdir, exist_ok=True)
@@ -145,7 +147,8 @@ def run_case(ctx, case):
             with fsmon.watch() as w:
                 d = detect_df(df2, cset, repair=False, outpath=outpath, per_constraint=o['per_constraint'],
                               write_all=o['write_all'], output_fields=o['output_fields'], index=o['index'],
-                              in_place=o['in_place'], boolean_ints=o['boolean_ints'], interleave=o['interleave'], **kw)
+                              in_place=o['in_place'], boolean_ints=o['boolean_ints'], interleave=o['interleave'],
+                              rownumber_is_index=o.get('rownumber_is_index', True), **kw)
     except Exception as e:
         m = common.short_tb(e)
         rec.case(case, cls=cls)
@@ -309,6 +312,17 @@ def run_case(ctx, case):
             if frows != want_labels or fnf != want_nf:
                 rec.violation('output_file_rows', {'case': case, 'mech': {'fmt': case['fmt'], 'write_all': o['write_all'], 'index': 'custom' if spec.get('index') is not None else 'default'},
                                                    'facts': {'rows': frows[:10], 'expected': want_labels[:10], 'n_failures': fnf[:10], 'true': want_nf[:10]}})
+        elif 'RowNumber' in fdf.columns and 'RowNumber' not in cols and not o.get('rownumber_is_index', True):
+            rec.event('file:row_numbers_compared')
+            try:
+                frows = [int(x) for x in fdf['RowNumber']]
+            except (TypeError, ValueError):
+                frows = [repr(x) for x in fdf['RowNumber']]
+            want_pos = [i + 1 for i in want_rows]
+            if frows != want_pos or fnf != want_nf:
+                rec.violation('output_file_rows', {'case': case, 'mech': {'fmt': case['fmt'], 'write_all': o['write_all'], 'numbering': 'RowNumber',
+                                                                          'index': 'custom' if spec.get('index') is not None else 'default'},
+                                                   'facts': {'RowNumber': frows[:10], 'expected_positions': want_pos[:10], 'n_failures': fnf[:10], 'true': want_nf[:10]}})
         elif fnf != want_nf:
             rec.violation('output_file_rows', {'case': case, 'mech': {'fmt': case['fmt'], 'write_all': o['write_all']},
                                                'facts': {'n_failures': fnf[:10], 'true': want_nf[:10]}})
